@@ -35,7 +35,7 @@ Bound == Modelled(doc)
 \* edit depth per family (cfg: MaxLevel <- ...)
 Depth1(f) == 1
 QuickDepth(f)    == IF f \in {"comp"} THEN 3 ELSE IF f \in {"core"} THEN 1 ELSE 2
-EmitDepth(f)     == IF f \in {"core"} THEN 1 ELSE 2
+EmitDepth(f)     == IF f \in {"core"} THEN 1 ELSE IF f = "pins" THEN 3 ELSE 2   \* pins: 3 edits reach 1 < mult < sites (two PinCell, one PinMult)
 ThoroughDepth(f) == IF f \in {"comp"} THEN 4 ELSE IF f \in {"core"} THEN 2 ELSE 3
 ThoroughEmit(f)  == IF f \in {"comp", "pins", "duct"} THEN 3 ELSE 2
 View == vars
